@@ -123,6 +123,17 @@ def _trim_hist(hist, n=40):
 def replay_job(job):
     """Child: rebuild the world from the explicit spec, run one scenario, judge."""
     mod = load(job["prop"])
+    if job.get("scenario") is None and job.get("rule", "").endswith("_accepted"):
+        # static pre-flight rule: "the generator must reject this input"
+        import tempfile, shutil
+        d = tempfile.mkdtemp(prefix="gapic-dsim-rp-", dir=world.scratch_root())
+        try:
+            world.generate(job["spec"], d)
+            return {"violations": [{"rule": job["rule"], "msg": "the input was accepted at generation time"}], "digest": None}
+        except Exception:  # noqa
+            return {"violations": [], "digest": None}
+        finally:
+            shutil.rmtree(d, ignore_errors=True)
     try:
         w = world.World(job["spec"])
     except world.WorldUnbuildable as e:
@@ -347,7 +358,7 @@ def replay(prop_id, mod, path):
     with open(path) as f:
         rp = json.load(f)
     warm()
-    job = {"prop": prop_id, "spec": rp["spec"], "scenario": rp.get("scenario")}
+    job = {"prop": prop_id, "spec": rp["spec"], "scenario": rp.get("scenario"), "rule": rp.get("rule", "")}
     _, st, pay = runner.run_one(replay_job, job, wall=120)
     if st != "ok":
         print(f"HARNESS-ERROR property={prop_id}: replay {st}: {str(pay)[-2000:]}")
